@@ -14,9 +14,9 @@ pub fn signs(k: usize) -> [i8; 6] {
 }
 
 /// geometry classes named in C01's quantifier
-pub const GEOMETRY_CLASSES: [&str; 9] = ["plain", "b-nonzero", "a2-positive", "a2-negative", "a1-negative", "a1-zero", "offsets-only", "c4-zero", "c1-zero"];
-/// classes used for forward kinematics only (the closed-form inverse presupposes c3 > 0)
-pub const FK_ONLY_CLASSES: [&str; 2] = ["c3-negative", "a2-c3-zero"];
+pub const GEOMETRY_CLASSES: [&str; 10] = ["plain", "b-nonzero", "a2-positive", "a2-negative", "a1-negative", "a1-zero", "offsets-only", "c4-zero", "c1-zero", "c3-negative"];
+/// classes used for forward kinematics only (a forearm of zero length leaves the elbow angle undefined)
+pub const FK_ONLY_CLASSES: [&str; 2] = ["a2-c3-zero", "a2-c3-zero"];
 
 pub fn geometry(class: &str, r: &mut StdRng) -> Parameters {
     let l = |r: &mut StdRng, lo: f64, hi: f64| r.gen_range(lo..hi);
